@@ -327,7 +327,7 @@ static int bfs_run(const uint8_t *hist, int n, uint64_t hash[2], void *arg)
 #define SMAX 40
 struct story { const char *name; int quick; int n; short step[SMAX]; unsigned expect; int nobytes; };
 enum { X_POP = 1, X_DRCS = 2, X_TOPNAV = 4, X_TITLE = 8, X_TRIGGER = 16, X_TOPINDEX = 32, X_LOP = 64, X_FLOF = 128 };
-#define MAXSTORY 16
+#define MAXSTORY 20
 static struct story ST[MAXSTORY]; static int NST;
 
 static struct story *story_new(const char *name, int quick, unsigned expect)
@@ -369,6 +369,10 @@ static void build_stories(void)
         s = story_new("X/26 flood: 20 enhancement packets for one page", 1, X_LOP); s->nobytes = 1;
         STP(s, P_H100E, P_R1_TEXT, P_X26_0L, P_X26_1, P_X26_2, P_X26_15, P_X26_15, P_X26_0L, P_X26_1, P_X26_15, P_X26_15, P_X26_15, P_X26_0L, P_X26_1, P_X26_15, P_X26_15, P_X26_15, P_X26_15,
             P_X26_0L, P_X26_1, P_X26_15, P_X26_15, P_H1FF);
+        /* every cached page has exactly the size its content needs (cache_page_size()): level one page, with X/26 only, with each
+         * single X/28 designation; then the MIP lists these pages as subtitle pages and their cached copies are examined */
+        s = story_new("subtitle pages with one X/28 packet each, MIP before and after", 1, X_LOP);
+        STP(s, P_H1FD, P_MIP_R1, P_MIP_R15, P_H102, P_R1_TEXT, P_X28_1, P_H103, P_R1_TEXT, P_X28_4, P_H100E, P_R1_TEXT, P_X26_0L, P_H101, P_R1_ATTR, P_X28_0, P_H1FD, P_MIP_R1, P_MIP_R15, P_H1FF);      /* the MIP twice: the first classifies the pages (stored as level one pages), the second finds them cached */
         s = story_new("damaged headers", 0, 0);
         STP(s, P_H100E, P_R1_TEXT, P_HBADPAGE, P_R1_TEXT, P_H100E, P_HBADSUB, P_R1_TEXT, P_HBADFLAGS, P_R1_TEXT, P_H1FF);
 }
